@@ -78,8 +78,8 @@ PROPS['C13'] = dict(
 )
 PROPS['C16'] = dict(
   level='proof',
-  verus=[dict(unit='ops', min_functions=40), dict(unit='native', min_functions=4)],
-  not_decided=['the ~150 native bodies, call_native, recursion through native callbacks, errors during handling, resolve_call/call/call_closure (frame limit)'],
+  verus=[dict(unit='ops', min_functions=40), dict(unit='native', min_functions=4), dict(unit='calls', min_functions=5)],
+  not_decided=['the ~150 native bodies, call_native / call_class bodies, recursion through native callbacks (the frame limit is proved for call / call_closure only), errors during handling'],
 )
 _HEAP_COMPLETE = ['proofs::o20_2_next_aligned', 'proofs::o20_2_array_layout_str', 'proofs::o20_2_array_layout_tuple', 'proofs::o20_2_array_layout_instance',
                   'proofs::o20_2_vector_layout_list', 'proofs::o20_2_obj_layout_fixed']
